@@ -62,7 +62,7 @@ pub mod print {
             Comparable::Function(tf) => func(tf),
             Comparable::SingularQuery(q) => {
                 let (p, v) = match q { SingularQuery::Current(v) => ("@", v), SingularQuery::Root(v) => ("$", v) };
-                format!("{}{}", p, v.iter().map(|s| match s { SingularQuerySegment::Index(i) => format!("[{}]", i), SingularQuerySegment::Name(n) => format!("[{}]", quote(n)) }).collect::<String>())
+                format!("{}{}", p, v.iter().map(|s| match s { SingularQuerySegment::Index(i) => format!("[{}]", i), SingularQuerySegment::Name(n) => format!("[{}]", if n.starts_with('\'') || n.starts_with('"') { n.clone() } else { quote(n) }) }).collect::<String>())
             }
         }
     }
